@@ -1,16 +1,18 @@
 #!/bin/bash
 # usage: tools/seedtest.sh <seed dir with patch.diff> <PROP>...
 # applies the patch to a PRIVATE clone of /repo (HEAD) and runs ./check PROP against it (BITS_REPO); /repo is untouched.
+# evidence and replay files of these runs go to the clone / the seed directory, never to /verif/evidence or /verif/replays.
 cd /verif
 d=$(realpath "$1"); shift
 clone=$(mktemp -d /tmp/seedrepo_XXXXXX)
 git clone -q /repo "$clone" || exit 2
 if ! git -C "$clone" apply "$d/patch.diff" 2>/dev/null; then echo "patch does not apply: $d"; rm -rf "$clone"; exit 2; fi
+mkdir -p "$d/replays"
 for p in "$@"; do
-  out=$(VERIF_EVIDENCE_DIR="$clone/.evidence" BITS_REPO="$clone" timeout 3000 ./check "$p" --tier "${TIER:-quick}" 2>&1); rc=$?
+  rm -f "$d/replays/$p"-*.json
+  out=$(VERIF_REPLAY_DIR="$d/replays" VERIF_EVIDENCE_DIR="$clone/.evidence" BITS_REPO="$clone" timeout 3000 ./check "$p" --tier "${TIER:-quick}" 2>&1); rc=$?
   v=$(echo "$out" | grep -c '^VIOLATION')
   nf=$(echo "$out" | grep '^VIOLATION' | grep -vc 'no-failing-input-found')
   echo "$(date +%H:%M) $p rc=$rc violations=$v with_input=$nf :: $(echo "$out" | tail -1)" | tee -a "$d/result.txt"
-  mkdir -p "$d/replays"; for f in replays/$p-*.json; do [ -f "$f" ] && cp "$f" "$d/replays/" ; done
 done
 rm -rf "$clone"
